@@ -55,3 +55,67 @@ def before_update_evaluator(repo, table: str, trigger: str) -> Callable[[Dict[st
         return dict(rows[0])
 
     return run
+
+
+AGG_TABLES = ('aggregated_job_resources_v3', 'aggregated_job_group_resources_v3',
+              'aggregated_billing_project_user_resources_v3', 'aggregated_billing_project_user_resources_by_date_v3')
+
+
+def attempt_billing_evaluator(repo):
+    """The three billing triggers of `attempts` / `attempt_resources` (verbatim text of the latest migrations defining
+    `attempts_before_update`, `attempts_after_update`, `attempt_resources_after_insert`) executed by minisql on ONE attempt of one job.
+
+    Returns `f(old: dict, new: dict, quantities: list[int]) -> (accepted row dict, usage_after_insert, usage_after_update)` where
+      1. the attempts row is seeded with the `old` times / reason (no trigger: that row is the stored state the case starts from),
+      2. one `attempt_resources` row per quantity is INSERTed (resource ids 1..n) -> `attempt_resources_after_insert` bills the old row,
+      3. `UPDATE attempts SET start_time, rollup_time, end_time, reason = <new>` runs -> before + after update triggers,
+    and each usage is `{table: [SUM(usage) of resource i over all shards / rows, for i = 1..n]}` for the four aggregated_*_v3 tables.
+    The tables the triggers read (`globals`, `batches`, `jobs`, `job_group_self_and_ancestors`) hold one filler row each; FOREIGN KEYs
+    are not enforced (the tables stand alone).  Used by property C03."""
+    import random
+
+    schema, routines = extract.load(repo)[:2]
+    rs = routines if isinstance(routines, dict) else {r.name: r for r in routines}
+    names = ['attempts', 'attempt_resources', 'globals', 'batches', 'jobs', 'job_group_self_and_ancestors'] + list(AGG_TABLES)
+    trigs = ['attempts_before_update', 'attempts_after_update', 'attempt_resources_after_insert']
+    db = MiniDB({n: schema[n] for n in names}, {t: rs[t] for t in trigs}, rng=random.Random(0), clock=lambda: 1704067200.0)
+    db.enforce_foreign_keys = False
+
+    def fill(table, given):
+        row = {}
+        for c in schema[table].columns:
+            if c.name in given:
+                row[c.name] = given[c.name]
+            elif c.not_null and not getattr(c, 'auto_increment', False):
+                row[c.name] = _filler(c)
+        return row
+
+    db.load_rows('globals', [fill('globals', {'n_tokens': 3})])
+    db.load_rows('batches', [fill('batches', {'id': 1, 'user': 'u1', 'billing_project': 'bp1'})])
+    db.load_rows('jobs', [fill('jobs', {'batch_id': 1, 'job_id': 1, 'job_group_id': 0, 'cores_mcpu': 1000})])
+    db.load_rows('job_group_self_and_ancestors', [fill('job_group_self_and_ancestors', {'batch_id': 1, 'job_group_id': 0, 'ancestor_id': 0, 'level': 0})])
+    snap = db.snapshot()
+
+    def usage(n):
+        out = {}
+        for t in AGG_TABLES:
+            tot = [0] * n
+            for r in db.tables[t]:
+                tot[r['resource_id'] - 1] += r['usage']
+            out[t] = tot
+        return out
+
+    def run(old, new, quantities):
+        db.restore(snap)
+        db.load_rows('attempts', [fill('attempts', {'batch_id': 1, 'job_id': 1, 'attempt_id': 'a', **old})])
+        for i, q in enumerate(quantities):
+            db.execute('INSERT INTO attempt_resources (batch_id, job_id, attempt_id, resource_id, deduped_resource_id, quantity) '
+                       'VALUES (%s, %s, %s, %s, %s, %s)', (1, 1, 'a', i + 1, i + 1, q))
+        u0 = usage(len(quantities))
+        keys = list(new)
+        db.execute('UPDATE attempts SET ' + ', '.join(f'`{k}` = %s' for k in keys) + ' WHERE batch_id = 1 AND job_id = 1 AND attempt_id = %s',
+                   tuple(new[k] for k in keys) + ('a',))
+        (row,) = db.tables['attempts']
+        return dict(row), u0, usage(len(quantities))
+
+    return run
